@@ -374,6 +374,18 @@ static inline int spec_gm_div_u64_lane_ok(uint64_t q, uint64_t r, uint64_t n, ui
   uint64_t p3 = AVM_MUL_u64(ql, dl) + (((AVM_MUL_u64(dh, ql) + AVM_MUL_u64(qh, dl)) & 0xffffffffull) << 32);
   return q == qq && (r == n - AVM_MUL_u64(qq, d) || r == n - AVM_MUL_u64(d, qq) || r == n - p3);
 }
+/* one lane of a vector Denominator<vecNx64i>: signed expression, the signed high product per lane through the scalar 128-bit
+ * multiplier; q * d as for the unsigned lanes (the low 64 bits of a product do not depend on signedness) */
+static inline uint64_t spec_sar_u64(uint64_t x, uint64_t c) { return c >= 64 ? ((x >> 63) ? ~0ull : 0ull) : (uint64_t)((int64_t)x >> c); }
+static inline int spec_gm_div_i64_lane_ok(uint64_t q, uint64_t r, uint64_t n, uint64_t mp, uint64_t dsign, uint64_t sh, uint64_t d) {
+  uint64_t t = (uint64_t)(AVM_MUL_i128((__int128)(int64_t)mp, (__int128)(int64_t)n) >> 64);
+  uint64_t q0 = n + t;
+  uint64_t q1 = spec_sar_u64(q0, sh) - (uint64_t)((int64_t)n >> 63);
+  uint64_t qq = (q1 ^ dsign) - dsign;
+  uint64_t ql = qq & 0xffffffffull, qh = qq >> 32, dl = d & 0xffffffffull, dh = d >> 32;
+  uint64_t p3 = AVM_MUL_u64(ql, dl) + (((AVM_MUL_u64(dh, ql) + AVM_MUL_u64(qh, dl)) & 0xffffffffull) << 32);
+  return q == qq && (r == n - AVM_MUL_u64(qq, d) || r == n - AVM_MUL_u64(d, qq) || r == n - p3);
+}
 static inline int spec_gm_div_u64_ok(uint64_t q, uint64_t r, uint64_t n, uint64_t m, uint64_t sh2, uint64_t d) {
   if (d == 1) return q == n && r == 0;
   uint64_t t1 = (uint64_t)(AVM_MUL_u128((unsigned __int128)m, (unsigned __int128)n) >> 64);
